@@ -280,6 +280,7 @@ def run_check(pid, tier, seed, only, jobs, write_evidence=True):
     unreplayed = []
     known_hit = {}
     reported = set()
+    todo = []   # (obligation, key, [violations])
     for n in names:
         g = agg[n]
         ob = obs[n]
@@ -296,39 +297,46 @@ def run_check(pid, tier, seed, only, jobs, write_evidence=True):
         if g["n_inc_req"] and ob.required:
             undecided.append("%s: %d solver answers 'unknown' on required obligations (e.g. %s)" %
                               (n, g["n_inc_req"], g["inconclusive"][:1]))
-        # violations, grouped by key; first reproducing witness per key is reported
+        # violations, grouped by key; the first reproducing witness per key is reported
         bykey = {}
         for v in g["violations"]:
             bykey.setdefault(v["key"], []).append(v)
         for key, vs in bykey.items():
             if key in reported:
                 continue
-            rep = None
-            info = None
-            for v in vs[:3]:
-                if v["inputs"] is None:
-                    continue
-                path = replay_file(pid, n, tier, v)
-                ok, info = replay_subprocess(path)
-                if ok:
-                    rep = (v, path)
-                    break
-            if rep is None:
-                unreplayed.append(dict(obligation=n, key=key, info=str(info)[:300]))
-                if ob.required:
-                    undecided.append("%s: counterexample for '%s' did not reproduce on the real code (%s)" %
-                                     (n, key, str(info)[:200]))
-                continue
             reported.add(key)
-            v, path = rep
-            if key in known_open:
-                known_hit[key] = path
-                lines.append("KNOWN-FINDING: property=%s %s [key=%s]" % (pid, known_open[key].get("what", v["label"]), key))
-            else:
-                n_viol += 1
-                exit_code = 1
-                lines.append("VIOLATION property=%s replay=%s" % (pid, path))
-                lines.append("  obligation=%s key=%s label=%s detail=%s" % (n, key, v["label"], v.get("detail")))
+            todo.append((n, key, vs))
+
+    def try_replay(item):
+        n, key, vs = item
+        info = None
+        for v in vs[:3]:
+            if v["inputs"] is None:
+                continue
+            path = replay_file(pid, n, tier, v)
+            ok, info = replay_subprocess(path)
+            if ok:
+                return (n, key, v, path, None)
+        return (n, key, None, None, info)
+    from concurrent.futures import ThreadPoolExecutor
+    with ThreadPoolExecutor(max_workers=max(1, min(jobs, 12))) as tp:
+        results = list(tp.map(try_replay, todo))
+    for n, key, v, path, info in results:
+        ob = obs[n]
+        if v is None:
+            unreplayed.append(dict(obligation=n, key=key, info=str(info)[:300]))
+            if ob.required:
+                undecided.append("%s: counterexample for '%s' did not reproduce on the real code (%s)" %
+                                 (n, key, str(info)[:200]))
+            continue
+        if key in known_open:
+            known_hit[key] = path
+            lines.append("KNOWN-FINDING: property=%s %s [key=%s]" % (pid, known_open[key].get("what", v["label"]), key))
+        else:
+            n_viol += 1
+            exit_code = 1
+            lines.append("VIOLATION property=%s replay=%s" % (pid, path))
+            lines.append("  obligation=%s key=%s label=%s detail=%s" % (n, key, v["label"], v.get("detail")))
     for l in lines:
         print(l)
     if harness_errors:
